@@ -143,7 +143,7 @@ def flags_of(lock):
 MAXQ = 5 if h.THOROUGH else 4
 
 
-@h.lemma(timeout=60, funcs=FUNCS, bounds="arbitrary Inv-state, queue length <= MAXQ (4 quick / 5 thorough)")
+@h.lemma(timeout=60, funcs=FUNCS, bounds="arbitrary Inv-state, queue length <= MAXQ (4 quick / 5 thorough)", inductive=True)
 def act_arrive(flags: List[bool], broken: bool):
     """
     pre: len(flags) <= MAXQ
@@ -181,7 +181,7 @@ def act_arrive(flags: List[bool], broken: bool):
 act_arrive.__vk__["reach"] = ("end", "broken", "blocked")
 
 
-@h.lemma(timeout=60, funcs=FUNCS, bounds="arbitrary Inv-state, 1 <= queue length <= MAXQ")
+@h.lemma(timeout=60, funcs=FUNCS, bounds="arbitrary Inv-state, 1 <= queue length <= MAXQ", inductive=True)
 def act_release(flags: List[bool], broken: bool):
     """
     pre: 1 <= len(flags) <= MAXQ
@@ -206,7 +206,7 @@ def act_release(flags: List[bool], broken: bool):
 act_release.__vk__["reach"] = ("end", "handover")
 
 
-@h.lemma(timeout=60, funcs=FUNCS, bounds="release on an empty queue")
+@h.lemma(timeout=60, funcs=FUNCS, bounds="release on an empty queue", inductive=True)
 def act_release_empty(broken: bool):
     """
     post: True
@@ -222,7 +222,7 @@ def act_release_empty(broken: bool):
     h.end()
 
 
-@h.lemma(timeout=60, funcs=FUNCS, bounds="arbitrary unbroken Inv-state, 1 <= queue length <= MAXQ; exit with/without exception")
+@h.lemma(timeout=60, funcs=FUNCS, bounds="arbitrary unbroken Inv-state, 1 <= queue length <= MAXQ; exit with/without exception", inductive=True)
 def act_exit(flags: List[bool], with_exc: bool):
     """
     pre: 1 <= len(flags) <= MAXQ
